@@ -121,6 +121,7 @@ pub assume_specification[ <SymbolicContext as Clone>::clone ](c: &SymbolicContex
 // ---------------- assumed contracts: the symbolic asynchronous graph ----------------
 // unit set: does not constrain the state coordinates (lib-param-bn: "unit_bdd should be a cartesian product ...";
 // established by get_extended_symbolic_graph and preserved by restrict_stg_unit_bdd, see wf_graph)
+#[verifier::opaque]
 pub open spec fn wf_graph(g: &SymbolicAsyncGraph) -> bool {
     &&& forall|p: Pt| #[trigger] unit_of(g).contains(p) ==> shaped(p)
     &&& forall|p: Pt, s: Seq<bool>| #![trigger unit_of(g).contains(with_state(p, s))] unit_of(g).contains(p) && s.len() == dim_n() ==> unit_of(g).contains(with_state(p, s))
@@ -175,8 +176,9 @@ pub open spec fn sub_graph(g: &SymbolicAsyncGraph) -> bool {
     wf_graph(g) && same_trans(g, &base_graph()) && unit_of(g).subset_of(base_unit())
 }
 pub uninterp spec fn net_graph(n: &BooleanNetwork) -> SymbolicAsyncGraph;   // (a) graph the network reference was taken from
+pub uninterp spec fn has_network(g: &SymbolicAsyncGraph) -> bool;           // the graph carries a copy of its BooleanNetwork
 pub assume_specification[ SymbolicAsyncGraph::as_network ](g: &SymbolicAsyncGraph) -> (r: Option<&BooleanNetwork>)
-    ensures r matches Some(n) ==> same_trans(&net_graph(n), g);
+    ensures has_network(g) ==> r is Some, r matches Some(n) ==> same_trans(&net_graph(n), g);
 // with_custom_context: the given unit BDD is intersected with the regulation constraints; the call fails
 // iff nothing remains ("No update functions satisfy given constraints"); transitions are those of the network.
 // Contract given for the case used by the repo: the unit BDD is already inside a valid unit set.
@@ -184,7 +186,7 @@ pub uninterp spec fn valid_colors() -> ISet<Pt>;   // points whose colour satisf
 pub assume_specification[ SymbolicAsyncGraph::with_custom_context ](n: &BooleanNetwork, c: SymbolicContext, u: Bdd) -> (r: Result<SymbolicAsyncGraph, String>)
     ensures
         match r {
-            Ok(g) => unit_of(&g) == bv(&u).intersect(valid_colors()) && same_trans(&g, &net_graph(n)) && unit_of(&g) != ISet::<Pt>::empty(),
+            Ok(g) => unit_of(&g) == bv(&u).intersect(valid_colors()) && same_trans(&g, &net_graph(n)) && unit_of(&g) != ISet::<Pt>::empty() && has_network(&g),
             Err(_) => bv(&u).intersect(valid_colors()) == ISet::<Pt>::empty(),
         };
 pub open spec fn has_succ(g: &SymbolicAsyncGraph, p: Pt) -> bool { exists|v: int| 0 <= v < dim_n() && #[trigger] can_flip(g, v, p.s, p.c) }
